@@ -174,6 +174,7 @@ func (w *world) kick(name string, safe bool, mode string) string {
 	w.mu.Lock()
 	w.events = nil
 	w.dials = 0
+	w.runaway = false
 	w.mu.Unlock()
 	k := &component.Text{Content: "K"}
 	if mode == "d" {
